@@ -893,6 +893,16 @@ def symbolic_for(I, st, it, env, module):
     key = (fnq, st.lineno)
     specs = getattr(I.ctx, "loop_specs", {}) or {}
     spec = specs.get((fnq, st.lineno)) or specs.get(fnq)
+    if spec is not None:
+        _raw_spec = spec
+
+        def spec(*a, _f=_raw_spec, **k):
+            try:
+                return _f(*a, **k)
+            except KeyError as e:
+                # the invariant looks up a variable of the function by name: renamed or restructured code is undecided, not an engine error
+                raise Unsupported(f"the loop invariant of the contract names {e}, which is not a variable of this function any more (renamed or restructured code)")
+        spec.extra_mutated = getattr(_raw_spec, "extra_mutated", ())
     label = f"inv@{fnq.split('.')[-1]}:{st.lineno}"
     mod = sorted((_mutated_paths(st.body) | set(getattr(spec, "extra_mutated", ()) or ())) - {(n,) for n in _target_names(st.target)})
 
